@@ -2966,6 +2966,10 @@ func (fr *Frame) call(st *State, x *ssa.Call) bool {
 	case "strings.Repeat":
 		fr.obligeAt(st, "safety.repeat", "call", fmt.Sprintf("(>= %s 0)", fr.val(x.Call.Args[1]).T), x.Pos())
 		r := c.fresh("repeated", "Str")
+		if k, ok := x.Call.Args[0].(*ssa.Const); ok && k.Value != nil && k.Value.Kind() == constant.String {
+			// a literal: keep the length linear (its byte count times n)
+			fr.assume(st, fmt.Sprintf("(= (slen %s) (* %d %s))", r, len(constant.StringVal(k.Value)), fr.val(x.Call.Args[1]).T))
+		}
 		fr.assume(st, fmt.Sprintf("(= (slen %s) (* (slen %s) %s))", r, fr.val(x.Call.Args[0]).T, fr.val(x.Call.Args[1]).T))
 		// repeating a one-byte string: every byte of the result is that byte
 		c.n++
@@ -3662,10 +3666,17 @@ func (fr *Frame) inline(st *State, callee *ssa.Function, args []Val, blk *ssa.Ba
 			vals = append(vals, Val{m, nf.rets[0].vals[k].Typ})
 		}
 	}
-	// copy back heap and pc; keep caller cells
+	// copy back heap and pc, and the caller's own cells: the callee may have written them through an address it was
+	// handed (a *strings.Builder or an out-parameter pointing at a local). Until session 4 the caller's cells were kept
+	// as they were before the call, which silently dropped such writes (soundness slip 6, DESIGN 9.13).
 	st.pc = merged.pc
 	for k, v := range merged.heap {
 		st.heap[k] = v
+	}
+	for k := range st.cells {
+		if v, ok := merged.cells[k]; ok {
+			st.cells[k] = v
+		}
 	}
 	return vals
 }
